@@ -250,6 +250,285 @@ def check_clean_cover(ctx, F):
     ctx.rule("fs.clean-cover", n, floor=18, note="write-helper call sites outside file_utils; per-object paths must go through ModFiles::write_file")
 
 
+# ---- tie order: a stable sort by a projection keeps ties in input order; in the walk-ordered region that is file-system order ----------
+SORTS = ("sort_by", "sort_by_key", "sort_unstable_by", "sort_unstable_by_key", "sort_by_cached_key")
+WALK_ORDERED_TYPES = ("::parsed::parsed_container::ParsedContainer", "::parsed::parsed_definer::ParsedDefiner", "::parsed::parsed_test_case::ParsedTestCase", "ParsedObjects")
+
+
+def _strip_refs(n):
+    n = H.strip(n)
+    while H.tag(n) in ("ref", "refmut") or (H.tag(n) == "un" and n[2] == "Deref"):
+        n = H.strip(n[1] if H.tag(n) in ("ref", "refmut") else n[4])
+    return n
+
+
+def _projection_of(closure, method):
+    """None when the comparator orders whole elements; else a description of the projection (and the tuple index when it is one)"""
+    params = [p[1] for p in closure[2] if H.tag(p) == "bind"]
+    body = H.strip(closure[3])
+    if method.endswith("_key"):
+        b = _strip_refs(body)
+        if H.tag(b) == "local" and params and b[1] == params[0]:
+            return None
+        if H.tag(b) == "mcall" and H.mcall(b)["name"] in ("clone", "to_owned") and H.tag(_strip_refs(H.mcall(b)["recv"])) == "local":
+            return None
+        return (H.short(body, maxlen=60), b[2] if H.tag(b) == "field" else None)
+    if H.tag(body) == "mcall" and H.mcall(body)["name"] in ("cmp", "partial_cmp"):
+        m = H.mcall(body)
+        a, b = _strip_refs(m["recv"]), _strip_refs(m["args"][0])
+        if H.tag(a) == "local" and H.tag(b) == "local" and {a[1], b[1]} == set(params[:2]):
+            return None
+        return (H.short(body, maxlen=60), a[2] if H.tag(a) == "field" and H.tag(b) == "field" and a[2] == b[2] else None)
+    return (H.short(body, maxlen=60), None)
+
+
+def _walk_parents(n, anc=()):
+    if isinstance(n, list):
+        if n and isinstance(n[0], str):
+            yield n, anc
+            anc = anc + (n,)
+        for x in n:
+            if isinstance(x, list):
+                yield from _walk_parents(x, anc)
+
+
+def _uses_of_local(body, name):
+    """-> list of ('field', k) / ('whole',) for every use of the local"""
+    out = []
+    for x, anc in _walk_parents(body):
+        if H.tag(x) == "local" and x[1] == name:
+            par = anc[-1] if anc else None
+            while par is not None and H.tag(par) in ("ref", "refmut", "paren"):
+                par = anc[anc.index(par) - 1] if anc.index(par) > 0 else None
+            if par is not None and H.tag(par) == "field" and H.strip(par[1]) is x or (par is not None and H.tag(par) == "field" and _strip_refs(par[1]) == x):
+                out.append(("field", par[2]))
+            else:
+                out.append(("whole",))
+    return out
+
+
+def _effect_free(body):
+    """a loop body whose only effects are early returns of literals / continue / break (so visiting order among elements is invisible)"""
+    for x in H.walk(body):
+        t = H.tag(x)
+        if t in ("call", "mcall", "assign", "assignop", "mac", "closure", "while", "loop", "for"):
+            return False
+        if t == "ret" and x[1] is not None and H.tag(H.strip(x[1])) != "lit":
+            return False
+    return True
+
+
+def check_tie_order(ctx, F):
+    fns = [fn for fn in F.all("fn") if fn.get("hir") is not None and not fn["path"].startswith(OUT_OF_SCOPE)]
+    n_sorts = n_partial = n_cons = 0
+    tainted_fns = {}
+    for fn in fns:
+        region = any(any(t in ty for t in WALK_ORDERED_TYPES) for ty in fn["inputs"])
+        for x in H.walk(fn["hir"]):
+            if H.tag(x) == "mcall" and H.mcall(x)["name"] in SORTS and H.mcall(x)["path"].startswith("std::slice::"):
+                n_sorts += 1
+                m = H.mcall(x)
+                cl = H.strip(m["args"][0]) if m["args"] else None
+                proj = _projection_of(cl, m["name"]) if cl is not None and H.tag(cl) == "closure" else ("comparator is not a closure", None)
+                if proj is None:
+                    continue
+                n_partial += 1
+                if not region:
+                    continue  # input order is already canonical (objects are totally ordered by sort_members / derived from B-trees)
+                recv = _strip_refs(m["recv"])
+                tail = _strip_refs(fn["hir"][2]) if H.tag(fn["hir"]) == "block" and fn["hir"][2] is not None else None
+                if H.tag(recv) == "local" and tail is not None and H.tag(tail) == "local" and tail[1] == recv[1]:
+                    tainted_fns[fn["path"]] = (fn, proj)
+                else:
+                    ctx.violate("det.tie-order", f"{fn['path']}|flow", f"{fn['path']}: `{H.short(x, maxlen=80)}` sorts by a projection ({proj[0]}) in the walk-ordered phase (before sort_members): elements with equal keys stay in "
+                                "file-system order, and where the vector goes could not be traced — review", fn["file"], fn["line"])
+    # flow into struct fields
+    tainted_fields = {}
+    for tp, (tfn, proj) in tainted_fns.items():
+        found = False
+        for fn in fns:
+            for st in H.walk(fn["hir"]):
+                if H.tag(st) == "let" and st[2] is not None and H.tag(H.strip(st[2])) == "call" and (H.call_path(H.strip(st[2])) or "") == tp and H.tag(st[1]) == "bind":
+                    lname = st[1][1]
+                    for c in H.walk(fn["hir"]):
+                        if H.tag(c) == "call" and any(H.tag(_strip_refs(a)) == "local" and _strip_refs(a)[1] == lname for a in H.call_args(c)):
+                            callee = F.fn(H.call_path(c) or "")
+                            if callee is None:
+                                continue
+                            idx = next(i for i, a in enumerate(H.call_args(c)) if H.tag(_strip_refs(a)) == "local" and _strip_refs(a)[1] == lname)
+                            pname = callee["params"][idx][1] if H.tag(callee["params"][idx]) == "bind" else None
+                            owner = callee["path"].rsplit("::", 1)[0]
+                            adt = next((a for a in F.all("adt") if a["path"] == owner and a["kind"] == "Struct"), None)
+                            if adt is not None and pname in [f[0] for f in adt["variants"][0][2]]:
+                                tainted_fields[(owner, pname)] = (tfn, proj)
+                                found = True
+        if not found:
+            ctx.violate("det.tie-order", f"{tp}|flow", f"{tp} returns a vector whose ties are in file-system order (sorted by {proj[0]} only) and the struct field it ends up in could not be determined — review", tfn["file"], tfn["line"])
+    # consumers of the tainted fields
+    for (owner, field), (tfn, proj) in tainted_fields.items():
+        key_idx = proj[1]
+        accessors = set()
+        for fn in fns:
+            if fn["path"].startswith(owner + "::") and H.tag(fn["hir"]) == "block" and not fn["hir"][1] and fn["hir"][2] is not None:
+                t = _strip_refs(fn["hir"][2])
+                if H.tag(t) == "field" and t[2] == field and H.tag(_strip_refs(t[1])) == "local" and _strip_refs(t[1])[1] == "self":
+                    accessors.add(fn["path"])
+        for fn in fns:
+            if fn["path"] in accessors:
+                continue
+            for x, anc in _walk_parents(fn["hir"]):
+                is_acc = H.tag(x) == "mcall" and H.mcall(x)["path"] in accessors
+                is_field = H.tag(x) == "field" and x[2] == field and fn["path"].startswith(owner + "::") and H.tag(_strip_refs(x[1])) == "local" and _strip_refs(x[1])[1] == "self"
+                if not (is_acc or is_field):
+                    continue
+                if is_field and fn["name"] in ("new", "eq", "clone", "fmt", "cmp", "partial_cmp", "hash"):
+                    continue
+                n_cons += 1
+                chain = []
+                cur = x
+                up = list(anc)
+                verdict = None
+                while up:
+                    par = up[-1]
+                    tp_ = H.tag(par)
+                    if tp_ in ("ref", "refmut", "paren", "block") and (tp_ != "block" or par[2] is cur):
+                        cur = par
+                        up.pop()
+                        continue
+                    if tp_ == "mcall" and _strip_refs(H.mcall(par)["recv"]) is _strip_refs(cur) or (tp_ == "mcall" and H.mcall(par)["recv"] is cur):
+                        chain.append(par)
+                        cur = par
+                        up.pop()
+                        continue
+                    break
+                par = up[-1] if up else None
+                names = [H.mcall(c)["name"] for c in chain]
+                where = f"{fn['path']}: `{H.short(chain[-1] if chain else x, maxlen=90)}`"
+                if par is not None and H.tag(par) == "for" and par[2] is cur or (par is not None and H.tag(par) == "for" and _strip_refs(par[2]) is _strip_refs(cur)):
+                    pat = par[1]
+                    var = None
+                    for y in H.walk(pat):
+                        if H.tag(y) == "bind":
+                            var = y[1]
+                    uses = _uses_of_local(par[3], var) if var else [("whole",)]
+                    only_key = key_idx is not None and all(u == ("field", key_idx) for u in uses)
+                    if not only_key and not _effect_free(par[3]):
+                        verdict = (f"iterates the vector in order and its loop body has effects that use more than the sort key (`{var}` used as "
+                                   f"{sorted(set('.' + u[1] if u[0] == 'field' else 'whole value' for u in uses))})")
+                elif names and names[0] in ("iter", "into_iter"):
+                    term = names[-1]
+                    mids = names[1:-1]
+                    if any(mm not in ("map", "filter", "filter_map", "cloned", "copied") for mm in mids):
+                        verdict = f"uses the order-sensitive adaptor chain {names}"
+                    elif term in ("any", "all", "count"):
+                        pass
+                    elif term == "collect":
+                        rty = chain[-1][8] if len(chain[-1]) > 8 and isinstance(chain[-1][8], str) else ""
+                        if not rty.startswith(("std::collections::BTreeSet", "std::collections::BTreeMap", "std::collections::btree")):
+                            verdict = f"collects the elements in order into `{rty[:60]}`"
+                    elif len(names) == 1:
+                        verdict = "hands out an iterator over the vector"
+                    else:
+                        verdict = f"ends in the order-sensitive `{term}` (first match / position / fold)"
+                elif names and names[-1] in ("is_empty", "len", "contains"):
+                    pass
+                else:
+                    verdict = "uses the vector as a whole (escapes to code that was not analysed)"
+                if verdict:
+                    ctx.violate("det.tie-order", f"{fn['path']}|{field}", f"{where} {verdict}; `{owner.split('::')[-1]}.{field}` is sorted by {proj[0]} only ({tfn['path'].split('::')[-1]}), "
+                                "so entries with equal keys are in the order the file system lists the wowm files: the output depends on the directory order", fn["file"], fn["line"])
+    ctx.rule("det.tie-order", n_sorts, floor=14, note=f"sort sites ({n_partial} by a projection, {len(tainted_fns)} of them in the walk-ordered phase); {len(tainted_fields)} tie-ordered struct field(s), "
+             f"{n_cons} consumer sites all order-insensitive on ties (any/all/len/is_empty, B-tree sinks, loops that only read the sort key or only return constants)")
+    if tainted_fns and n_cons < 6:
+        ctx.violate("det.tie-order", "floor|consumers", f"only {n_cons} consumers of the tie-ordered field(s) found, 6 were confirmed by reading (anchor disappeared)")
+
+
+def check_sweep_witness(ctx, F):
+    """ModFiles bookkeeping interpreted on small states: the sweep removes exactly the files that existed before the run and were not
+    written by it, whatever else happened during the run; write_file marks its path as written; the sweep runs at the end of
+    write_modules_and_remove_unwritten_files."""
+    import itertools
+    from ..minieval import Mini, BTree, Panic, Unsupported
+    FB = {"wow_message_parser": F}
+    MF = "crate::file_utils::mod_files::ModFiles"
+    adt = next((a for a in F.all("adt") if a["path"] == MF), None)
+    fns = {nm: F.fn(f"{MF}::{nm}") for nm in ("remove_unwritten_files", "write_modules_and_remove_unwritten_files", "write_file")}
+    if adt is None or any(v is None for v in fns.values()):
+        ctx.violate("fs.sweep-witness", "anchor", f"ModFiles or one of {sorted(fns)} not found (anchor disappeared)")
+        return
+    known = {"already_existing_files", "login_modules", "base_modules", "world_modules", "shared_base_modules", "shared_world_modules"}
+    extra = [(f[0], f[1]) for f in adt["variants"][0][2] if f[0] not in known]
+    cands = []
+    for nm, ty in extra:
+        if ty in ("usize", "u64", "u32", "i32", "i64", "u16", "u8", "isize"):
+            cands.append([(nm, v) for v in (0, 1, 2, 3, 1000)])
+        elif ty == "bool":
+            cands.append([(nm, v) for v in (False, True)])
+        else:
+            cands.append([(nm, None)])
+    combos = list(itertools.product(*cands)) if cands else [()]
+    n = 0
+
+    def state(entries, combo):
+        bt = BTree()
+        for k, v in entries:
+            bt.d[k] = v
+        st = ("struct", MF, {"already_existing_files": bt, "login_modules": BTree(), "base_modules": BTree(), "world_modules": BTree(), "shared_base_modules": None, "shared_world_modules": None})
+        st[2].update(dict(combo))
+        return st
+
+    def sweep(fn_name, entries, combo):
+        removed = []
+        m = Mini(FB, "wow_message_parser")
+        m.overrides = {"std::fs::remove_file": lambda a: (removed.append(a[0]), ("Ok", ()))[1],
+                       "::write_login_modules": lambda a: (), "::write_base_modules": lambda a: (), "::write_world_modules": lambda a: ()}
+        m.call_fn(f"{MF}::{fn_name}", [state(entries, combo)])
+        return sorted(removed)
+
+    maps = [[(1, True), (2, False), (3, True)], [(1, True), (2, True)], [(1, False), (2, False)], [(1, False), (2, True), (3, True), (4, True)], [], [(7, False)],
+            [(1, False), (2, False), (3, True), (4, True), (5, True)]]
+    for fn_name in ("remove_unwritten_files", "write_modules_and_remove_unwritten_files"):
+        fn = fns[fn_name]
+        done = False
+        for entries in maps:
+            for combo in combos:
+                n += 1
+                want = sorted(k for k, v in entries if not v)
+                try:
+                    got = sweep(fn_name, entries, combo)
+                except (Unsupported, Panic) as e:
+                    ctx.violate("fs.sweep-witness", f"{fn_name}|shape", f"ModFiles::{fn_name}: not interpretable — review ({type(e).__name__}: {e})", fn["file"], fn["line"])
+                    done = True
+                    break
+                if got != want:
+                    desc = ", ".join(f"file{k}:{'written' if v else 'stale'}" for k, v in entries)
+                    ex = f" (with {', '.join(f'{a}={b}' for a, b in combo)})" if combo else ""
+                    ctx.violate("fs.sweep-witness", f"{fn_name}|{desc}", f"ModFiles::{fn_name} on the bookkeeping state [{desc}]{ex} removes {['file%d' % k for k in got]}, the stale files are "
+                                f"{['file%d' % k for k in want]}: a run from a tree with stale files does not converge to the generated file set", fn["file"], fn["line"])
+                    done = True
+                    break
+            if done:
+                break
+    # write_file marks its target as written (so a file produced by this run is never swept)
+    for entries, path in (([(1, False), (2, False)], 2), ([(1, True)], 5), ([], 9)):
+        for combo in combos:
+            n += 1
+            st = state(entries, combo)
+            m = Mini(FB, "wow_message_parser")
+            m.overrides = {"::create_and_overwrite_if_not_same_contents": lambda a: (), "std::path::Path::canonicalize": lambda a: ("Ok", a[0]), "canonicalize": lambda a: ("Ok", a[0])}
+            try:
+                m.call_fn(f"{MF}::write_file", [st, path, "text"])
+            except (Unsupported, Panic) as e:
+                ctx.violate("fs.sweep-witness", "write_file|shape", f"ModFiles::write_file: not interpretable — review ({type(e).__name__}: {e})", fns["write_file"]["file"], fns["write_file"]["line"])
+                break
+            if st[2]["already_existing_files"].d.get(path) is not True:
+                ctx.violate("fs.sweep-witness", "write_file|mark", f"ModFiles::write_file does not record its target as written (state after the call: {st[2]['already_existing_files']}): the sweep would delete a file this run produced",
+                            fns["write_file"]["file"], fns["write_file"]["line"])
+                break
+    ctx.rule("fs.sweep-witness", n, floor=17, note=f"ModFiles bookkeeping interpreted on small states ({len(extra)} state fields beyond the modelled ones): the sweep removes exactly the pre-existing unwritten files, "
+             "write_file marks its target, the sweep ends write_modules_and_remove_unwritten_files")
+
+
 def run(ctx):
     F = facts("wow_message_parser")
     check_hash_iteration(ctx, F)
@@ -257,6 +536,8 @@ def run(ctx):
     check_sources(ctx, F)
     check_write_funnel(ctx, F)
     check_clean_cover(ctx, F)
+    check_sweep_witness(ctx, F)
+    check_tie_order(ctx, F)
     ctx.assume("byte-for-byte reproduction of the ~3,900 committed artefacts and convergence from damaged trees require running the generator (which, in this snapshot, aborts in its documentation printer on the unmodified tree) and are not decided")
     ctx.assume("the item/spell data printer (base_printer) is outside the artefact list of the property; its tie-breaking by hash order in Optimizations::new is noted in DESIGN.md, not reported")
     return "other", EXPLANATION, {}
